@@ -25,10 +25,18 @@ for _o in list(OBLIGATIONS[:3]):
 for _o in list(OBLIGATIONS[:3]):
     _s = dict(_o); _s["name"] = _o["name"].replace("_bytes", "_fields1"); _s["defs"] = [d for d in _o["defs"] if not d.startswith("NB=") and d != "GOOD_MAGIC"] + ["STRUCTURED", "CF_R=1", "CF_L=2"]
     _s["bounds"] = "code file of 1 record with unconstrained header fields (granularity/segment/CPU 0..255, length 0..2, kinds long/short/entry/$82/absent), truncated at any length"
-    _s["unwind"] = 10; _s["unwind_fn"] = {"harness": 10, "cf_load": 20, "cf_build": 8, "vp_vfprintf": 48}; _s["timeout"] = 2400; _s["mem_gb"] = 24
+    _s["unwind"] = 10; _s["unwind_fn"] = {"harness": 10, "cf_load": 20, "cf_build": 8, "vp_vfprintf": 48, "OpenTarget": 260}; _s["unwindset"] = ["strlen.0:64"]; _s["timeout"] = 2400; _s["mem_gb"] = 24
     OBLIGATIONS.append(_s)
+for _fmt in ("eHexFormatIntel32", "eHexFormatMotoS"):
+    OBLIGATIONS.append(dict(name="p2hex_fields1_" + ("intel32" if "Intel" in _fmt else "moto"), src="tools.c", include=["p2hex.c", "toolutils.c"], units=["bpemu.c"], cuts={"bpemu.c": ["FileSize"]},
+        defs=["TOOL_P2HEX", "HEXFMT=" + _fmt, "STRINGSIZE=16", "STRUCTURED", "CF_R=1", "CF_L=2"],
+        functions=["p2hex.c:ProcessFile", "toolutils.c:ReadRecordHeader", "toolutils.c:SkipRecord", "toolutils.c:FilterOK"],
+        bounds="code file of 1 record with unconstrained header fields (granularity/segment/CPU 0..255, length 0..2, kinds long/short/entry/$82/absent), truncated at any length; format fixed per obligation, window 0..15 in every segment",
+        unwind=12, unwind_fn={"harness": 12, "cf_load": 20, "cf_build": 8, "vp_vfprintf": 22},
+        unwindset=["strlen.0:64", "ProcessFile.4:4", "ProcessFile.0:6", "ProcessFile.1:5", "ProcessFile.2:5", "ProcessFile.3:6", "ProcessFile.5:6", "ProcessFile.6:6"], object_bits=13, timeout=2400, mem_gb=24,
+        assumes=["stdio replaced by the memory-file model; printf monitor ignores text", "option state: defaults, explicit window 0..15", "AddChunk cut"]))
 for _o in OBLIGATIONS:
-    if _o["name"].endswith("_bytes") or _o["name"].endswith("_fields") or _o["name"].endswith("_fields1"): _o["tier"] = "experimental"     # do not finish inside the quick budget (see DESIGN.md)
+    if _o["name"].endswith("_bytes") or _o["name"].endswith("_fields") or _o["name"] == "plist_fields1": _o["tier"] = "experimental"     # do not finish inside the quick budget (see DESIGN.md)
 # crash-class kernels shared with other properties: the same harnesses run with CBMC's memory/arithmetic
 # checks; the inputs that used to crash the assembler are inside their bounds
 import importlib.util, os
